@@ -66,6 +66,169 @@ def _strict(c):
 Lemma('C17', 'distinct_wavelengths_strictly_sorted', _strict, doc='ordering clause for >= 2 distinct wavelengths')
 
 
+# ------------------------------------------------------------------ _process_spectrum: widths and edges stay with their own wavelength
+def _ps_params(c):
+    K = c.choice('cols')
+    n = c.int('n')
+    return dict(self=ObjSpec('ArraySpectrum', _obs_spectrum=c.array('obs', (n, K)), _bin_widths=None, _bin_edges=None))
+
+
+def _ps_post(c, v0, v1, r):
+    A = v0.self._obs_spectrum
+    n, K = c.Shape(A)
+    bw, be = v1.self._bin_widths, v1.self._bin_edges
+    if K == 4:
+        return {'width_of_row_i_is_its_fourth_column': c.And(c.Len(bw) == n, c.Forall(0, n, lambda i: c.Eq(bw[i], A[i, 3]))),
+                'two_edges_per_row': c.Len(be) == 2 * n,
+                'edges_of_row_i_are_its_wavelength_plus_minus_half_its_width':
+                    c.Forall(0, n, lambda i: c.And(c.Eq(be[2 * i], A[i, 0] + A[i, 3] / 2), c.Eq(be[2 * i + 1], A[i, 0] - A[i, 3] / 2)))}
+    # three columns: edges at the mid-points between neighbouring wavelengths (compute_bin_edges by its contract)
+    return {'one_width_per_row': c.Len(bw) == n, 'one_more_edge_than_rows': c.Len(be) == n + 1,
+            'inner_edges_at_mid_points': c.Forall(1, n, lambda i: c.Eq(be[i], (A[i - 1, 0] + A[i, 0]) / 2)),
+            'widths_are_edge_differences': c.Forall(0, n, lambda i: c.Eq(bw[i], c.Abs(be[i + 1] - be[i])))}
+
+
+def _ps_native(c, p):
+    import numpy as np
+    from taurex.data.spectrum.array import ArraySpectrum
+    o = ArraySpectrum.__new__(ArraySpectrum)
+    o._obs_spectrum = np.array(p['self']['_obs_spectrum'], dtype=float)
+    o._bin_widths = o._bin_edges = None
+    o._process_spectrum()
+    return None, dict(p, self=dict(p['self'], _bin_widths=np.asarray(o._bin_widths, dtype=float), _bin_edges=np.asarray(o._bin_edges, dtype=float)))
+
+
+def _ps_gen(rng):
+    d = _ss_gen(rng)
+    d['n'] = max(d['n'], 2)
+    K = d['cols']
+    wl = sorted(rng.sample([0.5 + 0.25 * i for i in range(40)], d['n']), reverse=True)
+    d['obs'] = [[wl[i]] + [rng.uniform(0.01, 0.2) for _ in range(K - 1)] for i in range(d['n'])]
+    return d
+
+
+PS = Unit('C17', AS + '_process_spectrum', _ps_params, pre=lambda c, v: {'n': c.Shape(v.self._obs_spectrum)[0] >= 2}, post=_ps_post,
+          native=_ps_native, gen=_ps_gen, cases=[{'cols': 3}, {'cols': 4}], bounds=[dict(n=2), dict(n=3)],
+          frame_attrs=[('self', '_bin_widths'), ('self', '_bin_edges')], inline=['rawData', 'wavelengthGrid', 'manual_binning'],
+          safety=('index', 'div'), short='ArraySpectrum._process_spectrum',
+          doc='four columns: the width of row i is its fourth column and its two edges are wavelength +- width/2 (strided, reversed '
+              'stores); three columns: compute_bin_edges (by contract) of the wavelength column')
+
+
+# ------------------------------------------------------------------ create_binner: the binner is built from exactly the observation's grid and widths
+def _cb_params(c):
+    n = c.int('n')
+    return dict(self=ObjSpec('BaseSpectrum', wavenumberGrid=c.array('wn', (n,)), binWidths=c.array('bw', (n,))))
+
+
+def _h_new_fluxbinner(ex, st, args, kwargs, node):
+    from pyvc.engine import AbsObj
+    ids = {k: (v.id if hasattr(v, 'id') else v) for k, v in kwargs.items()}
+    st.trace.append(('ev', ('FluxBinner', tuple(a.id if hasattr(a, 'id') else a for a in args), ids)))
+    return AbsObj('FluxBinner', 0, {})
+
+
+def _cb_post(c, v0, v1, r):
+    ev = [e for e in (c.trace or []) if e[0] == 'FluxBinner']
+    if c.mode == 'conc':
+        return {'binner_on_the_observation_grid_and_widths': ev == [('FluxBinner', 'wavenumberGrid', 'binWidths')]}
+    g, w = v0.self.ref('wavenumberGrid').id, v0.self.ref('binWidths').id
+    ok = len(ev) == 1 and ((ev[0][1] == () and ev[0][2] == {'wngrid': g, 'wngrid_width': w}) or ev[0][1] == (g, w))
+    return {'binner_on_the_observation_grid_and_widths': ok, 'returns_that_binner': type(c.raw['ret']).__name__ == 'AbsObj'}
+
+
+def _cb_native(c, p):
+    import numpy as np
+    import taurex.binning as tb
+    from taurex.data.spectrum.spectrum import BaseSpectrum
+    trace = []
+    g, w = np.array(p['self']['wavenumberGrid'], dtype=float), np.array(p['self']['binWidths'], dtype=float)
+
+    class _S(BaseSpectrum):
+        wavenumberGrid = property(lambda self: g)
+        binWidths = property(lambda self: w)
+    saved = tb.FluxBinner
+
+    def fake(wngrid=None, wngrid_width=None):
+        trace.append(('FluxBinner', 'wavenumberGrid' if wngrid is g else '?', 'binWidths' if wngrid_width is w else '?'))
+        return 'binner'
+    tb.FluxBinner = fake
+    try:
+        r = _S.__new__(_S).create_binner()
+    finally:
+        tb.FluxBinner = saved
+    return r, dict(p, __trace__=trace)
+
+
+CB = Unit('C17', 'taurex.data.spectrum.spectrum:BaseSpectrum.create_binner', _cb_params, post=_cb_post, abstract={'new:FluxBinner': _h_new_fluxbinner},
+          native=_cb_native, gen=lambda rng: dict(n=2, wn=[1000.0, 2000.0], bw=[10.0, 20.0]), bounds=[dict(n=2)], short='BaseSpectrum.create_binner',
+          doc='the binner handed to the optimizer is a FluxBinner on exactly the observation wavenumbers and widths (FluxBinner.__init__ by '
+              'its own unit re-sorts grid and widths together)')
+
+
+# ------------------------------------------------------------------ ArraySpectrum.__init__: sort, then split, then convert the widths
+def _ai_ev(name):
+    def h(ex, st, args, kwargs, node):
+        me = st.get(args[0]) if args and hasattr(args[0], 'id') else None
+        st.trace.append(('ev', (name,)))
+        if name == '_process_spectrum' and me is not None:
+            from pyvc.core import Obj
+            new = Obj(me.cls, me.attrs)
+            new.attrs['_bin_widths'] = st.alloc(ex.c, ex.c.fresh_array('bw', (ex.c.fresh('n'),)))
+            st.put(args[0], new)
+        return None
+    return h
+
+
+def _h_wn2wl(ex, st, args, kwargs, node):
+    st.trace.append(('ev', ('wnwidth_to_wlwidth', tuple(a.id if hasattr(a, 'id') else a for a in args))))
+    return st.alloc(ex.c, ex.c.fresh_array('wnw', (ex.c.fresh('n'),)))
+
+
+def _ai_post(c, v0, v1, r):
+    tr = list(c.trace or [])
+    names = [e[0] for e in tr]
+    d = {'sorted_then_split_then_widths_converted': names == ['_sort_spectrum', '_process_spectrum', 'wnwidth_to_wlwidth']}
+    if c.mode == 'conc' or not d['sorted_then_split_then_widths_converted']:
+        return d
+    s1 = v1.self
+    conv = tr[2][1]
+    d['widths_converted_at_the_stored_wavelengths'] = len(conv) == 2 and conv[1] == s1.ref('_bin_widths').id
+    d['keeps_the_given_rows'] = s1.ref('_obs_spectrum').id == v0.ref('spectrum').id
+    return d
+
+
+def _ai_native(c, p):
+    import numpy as np
+    import taurex.data.spectrum.array as mod
+    trace = []
+
+    class _A(mod.ArraySpectrum):
+        def _sort_spectrum(self):
+            trace.append(('_sort_spectrum',))
+
+        def _process_spectrum(self):
+            trace.append(('_process_spectrum',))
+            self._bin_widths = np.ones(len(self._obs_spectrum))
+    saved = mod.wnwidth_to_wlwidth
+    mod.wnwidth_to_wlwidth = lambda a, b: (trace.append(('wnwidth_to_wlwidth',)), np.ones(len(a)))[1]
+    try:
+        _A(np.array(p['spectrum'], dtype=float))
+    finally:
+        mod.wnwidth_to_wlwidth = saved
+    return None, dict(p, __trace__=trace)
+
+
+AI = Unit('C17', AS + '__init__', lambda c: dict(self=ObjSpec('ArraySpectrum', _obs_spectrum=None, _bin_widths=None, _bin_edges=None, _wnwidths=None),
+                                                  spectrum=c.array('obs', (c.int('n'), 3))),
+          post=_ai_post, abstract={'call:_sort_spectrum': _ai_ev('_sort_spectrum'), 'call:_process_spectrum': _ai_ev('_process_spectrum'),
+                                   'call:wnwidth_to_wlwidth': _h_wn2wl, 'call:__init__': lambda ex, st, args, kwargs, node: None},
+          frame_attrs=[('self', a) for a in ('_obs_spectrum', '_bin_widths', '_bin_edges', '_wnwidths')], inline=['wavelengthGrid', 'rawData'],
+          native=_ai_native, gen=lambda rng: dict(n=2, obs=[[1.0, 0.1, 0.01], [2.0, 0.2, 0.02]]), bounds=[dict(n=2)], short='ArraySpectrum.__init__',
+          doc='construction order: the rows are sorted first, widths and edges are derived from the SORTED rows, and only then the widths are '
+              'converted at the stored wavelengths (each step by its own unit)')
+
+
 # ------------------------------------------------------------------ bounded stand-ins (never counted as proved)
 def _obs_expect(rows):
     """independent oracle: sort rows by wavelength descending, convert"""
